@@ -2,7 +2,7 @@
 """tools/keep_seed.py <Cxx> <seedout dir> <k> <caught: quick|thorough|missed> "<what it needs>" "<what I ran / result>" """
 import sys, os, shutil, json, subprocess
 P, D, K, caught, needs, ran = sys.argv[1:7]
-dst = "/verif/seeded/%s-%s" % (P, K)
+dst = "/verif/seeded/%s-%s" % (P, os.environ.get("KEEP_AS", K))   # KEEP_AS: id suffix when a later round reuses k
 os.makedirs(dst, exist_ok=True)
 for f in ("patch.diff", "demo.py", "README.txt"):
     shutil.copy(os.path.join(D, K, f), os.path.join(dst, f))
